@@ -105,6 +105,9 @@ MCEnvs == << [A1 |-> IntV(-1),  B1 |-> Text(<<51>>),        \* -1, "3"
 AllBinary == {"^", "*", "/", "+", "-", "&", "=", "<>", "<", "<=", ">", ">="}
 AllOperands == DOMAIN MCLit \cup MCRefs
 AllCalls == CallToks
+\* the sampled long formulas of the quick tier: values only
+SimOperands == AllOperands \ {"Q1", "Q2", "Q3", "Q4", "Q5"}
+SimCalls == {"SUM(", "IF("}
 
 \* the second pool of literals and references
 ExtOperands == {"N10", "N11", "N12", "N13", "T17", "T18", "T19", "Q1", "Q2", "Q3", "Q4", "Q5"}
